@@ -88,3 +88,25 @@ REG.add(Contract("get_parent_modules", module=M_TY, view="string", params=dict(m
                      "forall(Str, lambda p: (p in parent_modules) == (str_anc(p, module) and len(p) < idx))"])},
                  note="the local 'parent' (a list of characters that is only appended to and joined with '') is modelled by its concatenation",
                  properties=["C02", "C04", "C10", "C14"]))
+
+# ---------------------------------------------------------------- str.split on a literal separator: only the NUMBER of pieces is modelled
+_f_count = z3.Function("count_sep", S, S, z3.IntSort())
+
+
+def _split_fn(eng, st, recv, sep):
+    """s.split(sep): a sequence of count(sep in s) + 1 pieces (the pieces themselves are left unconstrained)."""
+    res = z3.Const(vals.fresh_name("pieces"), z3.SeqSort(S))
+    cnt = _f_count(recv.x, sep.x)
+    st.assume(z3.And(cnt >= 0, z3.Length(res) == cnt + 1))
+    return res
+
+
+REG.split_fn = _split_fn
+REG.specfuns["count_sep"] = lambda eng, st, s, sep: V(("int",), _f_count(s.x, sep.x))
+M_GG2 = "pytestarch.eval_structure_generation.graph_generation.graph_generator"
+REG.add(Contract("_add_extra_levels_to_limit_if_root_and_module_path_differ", module=M_GG2, view="string",
+                 params=dict(level_limit="Opt[Int]", path_diff_between_root_and_module="Str"), returns="Opt[Int]",
+                 # C09: the limit counts levels below module_path: it is raised by the number of dotted components between root_path and module_path
+                 ensures=["is_none(result) == is_none(level_limit)",
+                          "implies(not is_none(level_limit), unwrap(result) == unwrap(level_limit) + (0 if path_diff_between_root_and_module == '.' else count_sep(path_diff_between_root_and_module, '.') + 1))"],
+                 properties=["C09"]))
